@@ -15,3 +15,7 @@ pub use emf::{
     HighStorageResolutionCtor, MetricDefinition, MetricDirective, NoMetric, NoMetricCtor,
     SampledEmf, StorageResolution,
 };
+
+#[cfg(metrique_verif)]
+#[doc(hidden)]
+pub use emf::{verif_rate_to_n, verif_rate_to_n_alpha};
